@@ -477,6 +477,8 @@ impl Project {
                 head.push_str(&t);
             }
         }
+        // rule-level `pool = $pl` with the pool named per build statement
+        let pool_var = !plain && r.pct(35);
         let prefix_var = !plain && r.pct(30);
         if prefix_var {
             head.push_str("simcmd = sim\n");
@@ -484,14 +486,15 @@ impl Project {
         let simw = if prefix_var { v("simcmd") } else { "sim".to_string() };
         if shared_rule {
             head.push_str(&format!(
-                "rule r\n  command = {} {} {} {}{} : {}\n  description = D {}\n",
+                "rule r\n  command = {} {} {} {}{} : {}\n  description = D {}\n{}",
                 simw,
                 v("id"),
                 v("salt"),
                 v("decor"),
                 v("out"),
                 v("in"),
-                v("id")
+                v("id"),
+                if pool_var { format!("  pool = {}\n", v("pl")) } else { String::new() }
             ));
             head.push_str(&format!(
                 "rule rdep\n  command = {} {} {} {}{} : {}\n  description = D {}\n  depfile = {}\n",
@@ -659,7 +662,11 @@ impl Project {
                     binds.push("deps = gcc".into());
                 }
                 if let Some(p) = &s.pool {
-                    binds.push(format!("pool = {}", p));
+                    if pool_var && rname == "r" {
+                        binds.push(format!("pl = {}", p));
+                    } else {
+                        binds.push(format!("pool = {}", p));
+                    }
                 }
                 if s.hide_success {
                     binds.push("hide_success = 1".into());
@@ -699,6 +706,14 @@ impl Project {
             }
         }
         texts[0].push_str(&tail_pools);
+        if self.builddir.is_none() && !plain {
+            for k in 0..ninc {
+                if inc_kind[k] && root.sub(4, k as u64).pct(40) {
+                    // a subninja file's bindings are its own: this must not move the log
+                    texts[k + 1] = format!("builddir = scoped/bd{}\n{}", k, texts[k + 1]);
+                }
+            }
+        }
         let mut files = vec![(self.manifest.clone(), texts[0].clone())];
         for k in 0..ninc {
             files.push((format!("{}.inc{}", self.manifest, k), texts[k + 1].clone()));
